@@ -564,7 +564,7 @@ def compound(ctx, acc, mon, n):
     rnd = ctx.rnd
     mon.path = "compound"
     for i in range(n):
-        if ctx.expired():
+        if ctx.past(0.35):
             break
         t = rnd.choice(["int", "int", "uint", "double"])
         depth = rnd.choice([1, 2, 2, 3]) if not ctx.thorough else rnd.choice([1, 2, 3, 3, 4])
@@ -628,7 +628,7 @@ def nested_forms(ctx, acc, mon, n):
     mon.path = "nested"
     twins = {"double": [(0.0, -0.0), (-0.0, 0.0), (1.0, 1.0), (math.inf, -math.inf)], "int": [(0, 0), (MV.INT_MIN, MV.INT_MAX), (1, -1)], "uint": [(0, 0), (1, MV.UINT_MAX)]}
     for i in range(n):
-        if ctx.expired():
+        if ctx.past(0.6):
             break
         t = rnd.choice(["double", "double", "int", "uint"])
         op = rnd.choice(["+", "-", "*", "/"] + ([] if t == "double" else ["%"]))
